@@ -111,6 +111,35 @@ def run_book(ctx, bi, ncalls, replay=None, source=None):
             ex.set_cells([Cell(si, c - 1, r_ - 1, v) for (si, r_, c), v in ov.items()])
         return ex
 
+    def mk_noisy(ov):
+        """the same overrides supplied in ONE set_cells call whose list names coordinates more than once (earlier entries with other values,
+        other addressing spellings): the most recent entry of a coordinate is the override - the normal form is what mk() supplies"""
+        import random as _random
+        nrng = _random.Random(repr(sorted((k, repr(v)) for k, v in ov.items())))
+        ex = Executor().set_executed_class(class_object=cls)
+        if not ov:
+            return ex
+        final = list(ov.items())
+        nrng.shuffle(final)
+        lst = []
+        for (si, r_, c), v in final:
+            for _ in range(nrng.choice([0, 1, 1, 2, 3])):
+                decoy = nrng.choice([0, 1, -7, 'decoy', True, 2.5, '', 12345, v])
+                pos = nrng.randrange(len(lst) + 1)
+                lst.insert(pos, ((si, r_, c), decoy))
+        # the true values come last (in shuffled order), every decoy of a coordinate stands somewhere before its true value
+        lst += final
+        cells_ = []
+        for (si, r_, c), v in lst:
+            if nrng.random() < 0.5:
+                cells_.append(Cell(si, c - 1, r_ - 1, v))
+            else:
+                cells_.append(Cell(titles[si], wbspec.get_column_letter(c), str(r_), v))
+        ex.set_cells(cells_)
+        r.count('noisy_override_lists')
+        r.count('noisy_override_repeats', len(lst) - len(final))
+        return ex
+
     def size(ov, si):
         mr, mc = used[si]
         for (s, r_, c) in ov:
@@ -148,7 +177,7 @@ def run_book(ctx, bi, ncalls, replay=None, source=None):
             refB[key] = reference(ovB, *key)
         return refB[key]
 
-    exA, exB = mk(stagesA[0]), mk(ovB)
+    exA, exB = mk(stagesA[0]), mk_noisy(ovB)
     case0 = {'book': bi, 'spec': spec, 'overridesA': [[s, wbspec.a1(x, y), wbspec.enc(v)] for (s, x, y), v in ovA.items()],
              'overridesB': [[s, wbspec.a1(x, y), wbspec.enc(v)] for (s, x, y), v in ovB.items()], 'stagesA': cuts}
     LAST_CASE.clear()
